@@ -3,7 +3,7 @@
    rewrite of the C++ passes and a change of a guard, a tolerance, a sign or a formula does not. *)
 From Coq Require Import QArith Reals String List Qreals Lra Bool.
 From Interval Require Import Tactic.
-Require Import IPV.C03.Syntax IPV.C03.Hetero IPV.C03.Spec IPV.Gen.Gen_C03_model.
+Require Import IPV.C03.Syntax IPV.C03.SymExec IPV.C03.Hetero IPV.C03.Spec IPV.Gen.Gen_C03_model.
 Import ListNotations.
 Open Scope string_scope.
 Open Scope R_scope.
@@ -342,5 +342,42 @@ Section Tie.
   Proof.
     intros e H0 H1. unfold ss_dispatch, ss_ideal_body, ss_lambda_var. cbn. q2r.
     repeat split; intros; try lra; try tauto.
+  Qed.
+  (* binary non-ideal solid solutions: outside the miscibility gap ss_binary stores the mole fractions n_i / n and
+     the Guggenheim (Redlich-Kister) activity coefficients
+        ln lambda_1 = x2^2 (a0 - a1 (3 - 4 x2)),   ln lambda_2 = x1^2 (a0 + a1 (4 x2 - 1))     (log10 lambda = ln lambda / LOG_10) *)
+  Lemma ss_binary_guggenheim : forall e,
+      let nc := e "ss_ptr.ss_comps[0].moles" in
+      let nb := e "ss_ptr.ss_comps[1].moles" in
+      let n := e "ss_ptr.total_moles" in
+      let a0 := e "ss_ptr.a0" in let a1 := e "ss_ptr.a1" in
+      let xb := nb / n in let xc := nc / n in
+      e "LOG_10" <> 0 -> n <> 0 ->
+      ~ (e "ss_ptr.miscibility" <> 0 /\ xb > e "ss_ptr.xb1" /\ xb < e "ss_ptr.xb2") ->
+      wp ss_binary_body e (fun e1 _ =>
+        e1 "ss_ptr.ss_comps[0].fraction_x" = xc /\ e1 "ss_ptr.ss_comps[1].fraction_x" = xb /\
+        e1 "ss_ptr.ss_comps[0].log10_lambda" * e "LOG_10" = xb * xb * (a0 - a1 * (3 - 4 * xb)) /\
+        e1 "ss_ptr.ss_comps[1].log10_lambda" * e "LOG_10" = xc * xc * (a0 + a1 * (4 * xb - 1))).
+  Proof.
+    intros e nc nb n a0 a1 xb xc HL Hn Hgap. apply sym_sound0.
+    set (t := sym ss_binary_body []). vm_compute in t. subst t.
+    unfold tden. cbn [tdenS]. split; intro H.
+    - exfalso. apply Hgap. cbn in H. unfold xb, nb, n. tauto.
+    - unfold apply. cbn. q2r. subst xb xc nc nb n a0 a1.
+      repeat split; try reflexivity; field; auto.
+  Qed.
+
+  (* in both branches (inside the gap the fractions are xb1 and 1 - xb1) the two stored fractions sum to one *)
+  Lemma ss_binary_fractions_sum : forall e,
+      e "ss_ptr.total_moles" = e "ss_ptr.ss_comps[0].moles" + e "ss_ptr.ss_comps[1].moles" ->
+      e "ss_ptr.total_moles" <> 0 ->
+      wp ss_binary_body e (fun e1 _ =>
+        e1 "ss_ptr.ss_comps[0].fraction_x" + e1 "ss_ptr.ss_comps[1].fraction_x" = 1).
+  Proof.
+    intros e Hn Hn0. apply sym_sound0.
+    set (t := sym ss_binary_body []). vm_compute in t. subst t.
+    unfold tden. cbn [tdenS]. split; intro H; unfold apply; cbn; q2r.
+    - lra.
+    - rewrite Hn in *. field. exact Hn0.
   Qed.
 End Tie.
